@@ -484,6 +484,7 @@ func (c *c07) buildCases(thorough bool) []*c07Case {
 				{name: "hook-truncated", msgs: 1, badSig: "truncated", expect: "REFUND"},
 				{name: "hook-overspend", msgs: 1, badSig: "overspend", expect: "REFUND"},
 				{name: "hook-bad-signer-string", msgs: 1, badSig: "badfrom", expect: "REFUND"},
+				{name: "hook-withdraw-then-fail", msgs: 2, badSig: "withdraw-then-fail", expect: "REFUND"},
 				{name: "hook-empty-signer-string", msgs: 1, badSig: "emptyfrom", expect: "REFUND"},
 			}
 			for _, h := range hooks {
@@ -506,6 +507,13 @@ func (c *c07) buildCases(thorough bool) []*c07Case {
 				}
 				for i := 0; i < h.msgs; i++ {
 					msgs = append(msgs, banktypes.NewMsgSend(r.acct.Addr, c.hookTarget.Addr, sdk.NewCoins(sdk.NewCoin(cs.msg.Amount.Denom, amt))))
+				}
+				if h.badSig == "withdraw-then-fail" {
+					// first message: a withdrawal that would succeed on its own; second: a transfer that cannot be paid
+					msgs = []sdk.Msg{
+						opchildtypes.NewMsgInitiateTokenWithdrawal(r.acct.String(), "l1-recipient-of-hook", sdk.NewCoin(cs.msg.Amount.Denom, math.NewInt(1))),
+						banktypes.NewMsgSend(r.acct.Addr, c.hookTarget.Addr, sdk.NewCoins(sdk.NewCoin(cs.msg.Amount.Denom, a.v.AddRaw(1_000_000_000_000).MulRaw(1_000_000)))),
+					}
 				}
 				signer, chain := *r.acct, sim.L2ChainID
 				switch h.badSig {
@@ -542,6 +550,22 @@ func (c *c07) buildCases(thorough bool) []*c07Case {
 			}
 		}
 	}
+	// a bridged denom whose bank metadata already exists (set by bank genesis or another module) before its first deposit
+	for _, r := range recips {
+		for _, payload := range []string{"none", "random-bytes"} {
+			cs := &c07Case{name: r.name + "/mid/" + payload + "/premeta-denom"}
+			cs.msg = e.DepositMsg(ex, seq, "l1sender-premeta", r.to, "upremeta", math.NewInt(1_000_000), nil)
+			if payload == "random-bytes" {
+				cs.msg.Data = c.rng.Bytes(24)
+			}
+			if r.good && payload == "none" {
+				cs.expect = "CREDIT"
+			} else {
+				cs.expect = "REFUND"
+			}
+			cases = append(cases, cs)
+		}
+	}
 	return cases
 }
 
@@ -564,6 +588,8 @@ func checkC07(run *mon.Run, rng *mon.Rand, thorough bool) {
 	}
 	// a blocked module account that already holds bridged tokens (e.g. collected fees)
 	base.L2.FundModule("distribution", sdk.NewCoin(base.L2Denom("uinit"), math.NewIntFromUint64(1<<63).MulRaw(4)))
+	base.L2.BK.SetDenomMetaData(base.L2.Ctx, banktypes.Metadata{Base: base.L2Denom("upremeta"), Display: "premeta", Name: "pre-registered", Symbol: "PRE",
+		DenomUnits: []*banktypes.DenomUnit{{Denom: base.L2Denom("upremeta"), Exponent: 0}, {Denom: "premeta", Exponent: 6}}})
 	cases := c.buildCases(thorough)
 	run.Extra["input_classes"] = len(cases)
 	for _, cs := range cases {
